@@ -11,6 +11,7 @@ import PsV.Driver.C14
 import PsV.Driver.C17
 import PsV.Driver.C09
 import PsV.Driver.C08
+import PsV.Driver.C20
 open PsV.Driver
 
 def stateless (f : List String → String) : IO Unit := do
@@ -28,7 +29,8 @@ def drivers : List (String × IO Unit) :=
    ("C18", C18.run),
    ("C17", stateless C17.handle),
    ("C09", C09.run),
-   ("C08", C08.run)]
+   ("C08", C08.run),
+   ("C20", C20.run)]
 
 def main (args : List String) : IO UInt32 := do
   match args with
